@@ -7,6 +7,17 @@ PAIRS = [('dos33', 'do:5.25in'), ('dos33', 'woz2:5.25in'), ('dos33', 'nib:5.25in
          ('fat', 'img:5.25in-ibm-ssdd9'), ('fat', 'imd:5.25in-ibm-dsdd9'), ('fat', 'td0:5.25in-ibm-dsdd9'), ('cpm2', 'imd:8in'), ('prodos', 'do:5.25in'), ('fat', 'img:3.5in-ibm-720')]
 META = ['woz2:5.25in', 'woz1:5.25in', '2mg-do:5.25in', 'imd:8in', 'td0:8in', 'nib:5.25in', 'do:5.25in']
 
+FAT_REGIONS = [(0, 64), (512, 16)]
+FIELD_SWEEPS = [('fat', 'img:5.25in-ibm-ssdd8', FAT_REGIONS), ('fat', 'img:5.25in-ibm-ssdd9', FAT_REGIONS), ('fat', 'img:5.25in-ibm-dsdd8', FAT_REGIONS),
+                ('fat', 'img:5.25in-ibm-dsdd9', FAT_REGIONS + [(5 * 512, 32)]), ('fat', 'img:3.5in-ibm-720', FAT_REGIONS), ('fat', 'img:3.5in-ibm-1440', FAT_REGIONS),
+                ('prodos', 'po:5.25in', [(1024, 96), (6 * 512, 16)]), ('pascal', 'po:5.25in', [(1024, 64)]),
+                ('dos33', 'do:5.25in', [(17 * 4096, 64), (17 * 4096 + 15 * 256, 48)]), ('cpm2', 'do:5.25in', [(3 * 4096, 64)])]
+
+MORE_SWEEPS = [('prodos', 'po:3.5in-ss', [(1024, 2048)]), ('prodos', 'po:5.25in', [(1024, 2048), (6 * 512, 64)]), ('pascal', 'po:5.25in', [(1024, 2048)]),
+               ('dos32', 'd13:5.25in-13', [(17 * 13 * 256, 256), (17 * 13 * 256 + 12 * 256, 256)]), ('dos33', 'do:5.25in', [(17 * 4096, 256), (17 * 4096 + 15 * 256, 256)]),
+               ('cpm2', 'do:5.25in', [(3 * 4096, 1024)]), ('cpm3', 'do:5.25in', [(3 * 4096, 512)]), ('fat', 'img:5.25in-ibm-dsdd9', [(512, 64), (5 * 512, 512)]),
+               ('fat', 'img:3.5in-ibm-1440', [(512, 64), (19 * 512, 256)]), ('fat', 'img:5.25in-ibm-ssdd8', [(512, 64), (3 * 512, 256)])]
+
 def le32(v):
     return bytes([v & 255, (v >> 8) & 255, (v >> 16) & 255, (v >> 24) & 255])
 
@@ -84,6 +95,11 @@ def run(ctx, model_ok=True):
     for lab in META:
         for _ in range(n):
             lines.append(f"malform m{k} meta {rng.randrange(1 << 30)} {lab}"); k += 1
+    # single-field sweeps over the key structures of raw images (boot sector / BPB, FAT, volume headers, VTOC, directories)
+    for fs, lab, regions in FIELD_SWEEPS + ([] if quick else MORE_SWEEPS):
+        for base, span in regions + ([] if quick else [(0, 2048)]):
+            for b in range(base, base + span, 16):
+                lines.append(f"malform m{k} fields {rng.randrange(1 << 30)} {fs} {lab} {b} {min(16, base + span - b)}"); k += 1
     for proc in range(4):
         for mx in range(4):
             lines.append(f"dasmsweep s{k} {proc} {mx} {[0, 768, 65280][(proc + mx) % 3]}"); k += 1
@@ -98,7 +114,7 @@ def run(ctx, model_ok=True):
         o = out.get(t[1])
         ctx.evaluations += 1
         if o is None or not o.startswith('ok'):
-            what = (t[2] + (':' + t[4] if len(t) > 4 else '')) if t[0] == 'malform' else t[0]
+            what = (t[2] + (':' + t[4] if len(t) > 4 else '') + (':' + t[5] if t[2] == 'fields' else '')) if t[0] == 'malform' else t[0]
             cls = ('crash:' if (o or 'CRASH').startswith('CRASH') or o is None else 'hang:' if 'hang' in (o or '')[:12] else 'panic:') + what
             ctx.failures.append({'cls': cls, 'case': ln, 'detail': (o or 'NO-OUTPUT')[:500]})
         else:
